@@ -23,11 +23,25 @@ def main(argv):
         if mode == "--replay":
             data = json.loads(Path(argv[2]).read_text())
             ctx = core.Ctx(prop, "quick", data.get("seed", seed))
-            return mod.replay(ctx, data)
+            if data.get("kind") in ("correspondence-broken", "obligation-broken") or data.get("case") is None:
+                # no single case was isolated: the replay is the whole run with the recorded seed
+                seed = data.get("seed", seed)
+                mode = "quick"
+            else:
+                return mod.replay(ctx, data)
         # the command line decides the tier (quick_cmd / thorough_cmd); VERIF_TIER only fills in when it is absent
         tier = mode if mode in ("quick", "thorough") else os.environ.get("VERIF_TIER", "quick")
         ctx = core.Ctx(prop, tier, seed)
-        return mod.check(ctx)
+        try:
+            return mod.check(ctx)
+        except (LookupError, ValueError, TypeError, AttributeError, ArithmeticError, AssertionError):
+            # a Python-level exception of the harness (not I/O, memory, time-outs, tool errors): see core.harness_crash
+            text = traceback.format_exc()
+            rc = core.harness_crash(prop, seed, text)
+            if rc is None:
+                raise
+            print(text, file=sys.stderr)
+            return rc
     except core.ToolError as e:
         print(f"TOOL-ERROR {prop}: {e}", file=sys.stderr)
         return 2
